@@ -154,8 +154,23 @@ pub fn check(c: &Case) -> Outcome {
             }
             // prefix identity of the samples
             let k = m - 1;
-            if k > twin.t.len() || !bits_eq(&sol.t[..k], &twin.t[..k]) || !bits_eq2(&sol.y[..k], &twin.y[..k]) {
+            if std::env::var_os("VF_DEBUG").is_some() {
+                eprintln!("C10-DEBUG stop {:e}\n sol.t {:?}\n sol.y {:?}\n twin.t {:?}\n twin.y {:?}\n te {:?}", ts, sol.t, sol.y, twin.t, twin.y, te);
+            }
+            // "everything reported before the stop is identical": bit-identical for samples not later than the event; a
+            // requested time inside the 1e-12 slack *beyond* the event is tolerated by C05 but is not "before the
+            // stop" -- its value is the event state or an interpolant a rounding error away (|f|*1e-12)
+            let kb = sol.t[..k].iter().take_while(|t| (**t - ts) * d <= 0.0).count();
+            if k > twin.t.len() || !bits_eq(&sol.t[..k], &twin.t[..k]) || !bits_eq2(&sol.y[..kb], &twin.y[..kb]) {
                 return Outcome::viol(format!("{}: the samples before the terminal point are not a bit-identical prefix of the run without terminal flags ({} vs {} samples)", name, k, twin.t.len()));
+            }
+            for j in kb..k {
+                let mut fj = vec![0.0; prob.n];
+                crate::instr::Rhs::f(&prob, sol.t[j], &sol.y[j], &mut fj);
+                let tol = 1e-10 * (1.0 + inf_norm(&sol.y[j])) + 4.0 * inf_norm(&fj) * 1e-12;
+                if max_abs_diff(&sol.y[j], &twin.y[j]) > tol {
+                    return Outcome::viol(format!("{}: the requested time {:e} (within 1e-12 beyond the terminal event at {:e}) is reported with a value {:e} away from the run without terminal flags", name, sol.t[j], ts, max_abs_diff(&sol.y[j], &twin.y[j])));
+                }
             }
             for t in &twin.t {
                 if (t - ts) * d < 0.0 && !sol.t[..k].iter().any(|s| s.to_bits() == t.to_bits()) {
